@@ -143,6 +143,8 @@ json_endpoints! {
     fn kib_body(body: String) -> String;
     fn safe_mix(auth_: BearerToken, safe_path: String, unsafe_path: String, safe_query: String, unsafe_query: String, safe_header: String, unsafe_header: String, dnl_query: Option<String>, enum_query: Option<Color>, unsafe_enum_query: Option<Color>) -> ();
     fn tag_mix(plain_path: String, retry_query: String, unsafe_tag_query: String, upper_header: String, marker_alike: String, real_safe: String) -> ();
+    fn safe_list(safe_tags: BTreeSet<String>, secret_word: String, safe_ids: Vec<String>) -> ();
+    fn enum_list() -> Vec<Color>;
     fn tee_body(id: i32, body: Tee) -> ();
     fn wrapper_body(id: i32, body: Wrapper) -> ();
     fn link_body(id: i32, body: Vec<Link>) -> ();
